@@ -3,6 +3,7 @@ package main
 import (
 	"errors"
 	"fmt"
+	"strings"
 	"sync"
 	"time"
 
@@ -83,6 +84,16 @@ func runC06(c *Ctx) error {
 				reason := make([]byte, rl)
 				for i := range reason {
 					reason[i] = byte('a' + i%26)
+				}
+				// the cut is a cut of BYTES: multi-byte characters (one may straddle byte 123) and bytes that are not
+				// UTF-8 at all stay what they are
+				switch (rl + code) % 3 {
+				case 1:
+					reason = []byte(strings.Repeat("\u00e9\u4e2d", rl))[:rl]
+				case 2:
+					if rl > 5 {
+						reason[5] = 0xff
+					}
 				}
 				spec := connSpec{Server: server, Utf8: true}
 				conn, tap, err := spec.open(&recHandler{})
